@@ -91,3 +91,69 @@ def replay_rebuild_references(fl, FA, vals=None, seed=0, **kw):
     finally:
         fl.settings.alias = old
     return {"failed": False, "cases": cases, "distinct": cases}
+
+
+def replay_large_collections(fl, FA, vals=None, seed=0, **kw):
+    """collections longer than reprlib's default limits are printed in full (no literal `...`)"""
+    e = fl.Engine("big", input_variables=[fl.InputVariable("a", minimum=0.0, maximum=1.0, terms=[fl.Triangle(f"t{i}", 0.0, 0.5, 1.0) for i in range(25)])], output_variables=[], rule_blocks=[], load=False)
+    objs = {"Function with 12 variables": fl.Function("f", "x + k0", variables={f"k{i}": float(i) / 8 for i in range(12)}),
+            "Discrete with 40 pairs": fl.Discrete("d", fl.Discrete.to_xy([i / 40 for i in range(40)], [(i % 5) / 4 for i in range(40)])),
+            "Linear with 30 coefficients": fl.Linear("l", [float(i) for i in range(30)]),
+            "InputVariable with 25 terms": e.input_variables[0],
+            "RuleBlock with 30 rules": fl.RuleBlock("rb", rules=[fl.Rule.create(f"if a is t{i % 25} then o is u with 0.{i % 9 + 1}") for i in range(30)])}
+    cases = 0
+    old = fl.settings.alias
+    try:
+        for alias in ("fl", "*"):
+            fl.settings.alias = alias
+            ns = {}
+            exec(fl.representation.import_statement(), ns)
+            for what, obj in objs.items():
+                cases += 1
+                text = repr(obj)
+                try:
+                    back = eval(text, ns)
+                    same = repr(back) == text
+                except Exception as ex:  # noqa
+                    return {"failed": True, "class": "py-exec-error:large-collection", "expected": "the representation is valid Python", "observed": f"{type(ex).__name__}: {ex}; `...` in text: {'...' in text}",
+                            "call": f"alias {alias!r}: eval(repr(<{what}>))", "cases": cases}
+                if not same:
+                    return {"failed": True, "class": "py-repr:large-collection", "expected": text[:200], "observed": repr(back)[:200], "call": f"alias {alias!r}: {what}", "cases": cases}
+    finally:
+        fl.settings.alias = old
+    return {"failed": False, "cases": cases, "distinct": len(objs)}
+
+
+def replay_exporter_reuse(fl, FA, vals=None, seed=0, **kw):
+    """an exporter object created under one alias and used under another prints code consistent with the CURRENT alias"""
+    e = fl.Engine("reuse", input_variables=[fl.InputVariable("a", minimum=0.0, maximum=1.0, terms=[fl.Triangle("t", 0.0, 0.5, 1.0)])],
+                  output_variables=[fl.OutputVariable("o", minimum=0.0, maximum=1.0, defuzzifier=fl.Centroid(10), aggregation=fl.Maximum(), terms=[fl.Triangle("u", 0.0, 0.5, 1.0)])],
+                  rule_blocks=[fl.RuleBlock("rb", implication=fl.Minimum(), activation=fl.General(), rules=[fl.Rule.create("if a is t then o is u")])])
+    cases = 0
+    old = fl.settings.alias
+    try:
+        for first in ("fl", "", "*", "fuzzy"):
+            fl.settings.alias = first
+            exporters = {"plain": fl.PythonExporter(formatted=False, encapsulated=False), "encapsulated": fl.PythonExporter(formatted=False, encapsulated=True)}
+            for alias in ("fl", "", "*", "fuzzy"):
+                fl.settings.alias = alias
+                for mode, exp in exporters.items():
+                    cases += 1
+                    code = exp.to_string(e)
+                    ns = {}
+                    try:
+                        if mode == "plain":
+                            exec(fl.representation.import_statement(), ns)
+                            back = eval(code, ns)
+                        else:
+                            exec(code, ns)
+                            back = [v for k, v in ns.items() if isinstance(v, type) and k == fl.Op.pascal_case(e.name)][0]().engine
+                        ok = repr(back) == repr(e)
+                    except Exception as ex:  # noqa
+                        return {"failed": True, "class": "py-exec-error:exporter-reuse", "expected": "the export executes under the alias that is set when it is produced", "observed": f"{type(ex).__name__}: {ex}; first line: {code.splitlines()[0]!r}",
+                                "call": f"exporter created under alias {first!r}, used under alias {alias!r} ({mode})", "cases": cases}
+                    if not ok:
+                        return {"failed": True, "class": "py-repr:exporter-reuse", "expected": repr(e)[:150], "observed": repr(back)[:150], "call": f"{first!r} -> {alias!r} ({mode})", "cases": cases}
+    finally:
+        fl.settings.alias = old
+    return {"failed": False, "cases": cases, "distinct": cases}
